@@ -43,7 +43,9 @@ class SortedMap(MutableMapping[K, T], Generic[K, T]):
                 self.keys_storage = list(init_values.keys())
                 values = list(init_values.values())
             else:
-                self.keys_storage, values = zip(*init_values)
+                init_values = list(init_values)
+                self.keys_storage = [k for k, _ in init_values]
+                values = [v for _, v in init_values]
             # sort keys
             sorted_indices = arg_sort(self.keys_storage)
 
